@@ -82,6 +82,10 @@ CLAIMED['C04'] = dict(engine='E5', technique='Coq proof about a hand model of st
     text='Partial. Proved: the doubled odd-length dash array selects the same on/off interval as the SVG rule for every index; the fill piece below the stroke piece composites like the stroked shape whenever opacity is 1 or only one piece covers the point (and differs otherwise, by example). Not proved: that the Skia outline is the ideal stroke region, and the order stroke-then-transform-then-clip in _simplify - decided on every run by compositing source (ideal stroke region, three-valued) and output at sample points under caps, joins, miter limits, dashes, offsets, inherited properties and non-uniform ancestor transforms.',
     note='Stroke.v validated with the real engine on 260/4000 cases (identical pieces); judge covers 120/2500 documents, 729 sample points each.',
     design='§7 C04')
+CLAIMED['C06'] = dict(engine='E5', technique='Coq proof (exact reals) about a hand model of the gradient rewriting built on the Affine2D functions translated from svg_transform.py; differential run against _transformed_gradient / _apply_gradient_template; independent gradient evaluator sampling colours of source and output on every run',
+    text='Partial. Proved in exact arithmetic: resolving bounding-box units, baking the ancestor transform into gradientTransform and folding the translation into the coordinates send every gradient-space point to a point with the same world image and the same gradient parameter (linear: projection on the gradient vector; radial: any function of point and circles relative to the focal point), given that decompose_translation recomposes exactly - proved for its main branch; template resolution gives own-else-template for the attributes of the gradient\'s own class. Not proved: the 6-decimal rounding, the degenerate decomposition branches, percentages/defaults parsing, and the end-to-end claim - decided on every run by comparing colours of source and converted document at interior sample points (all units, transform lists, spread methods, href chains) and by checking that output gradients are self-contained.',
+    note='Gradient.v validated on 400/6000 cases (numbers within 3e-6); judge covers 150/3000 documents, 841 sample points each.',
+    design='§7 C06')
 PENDING = {}
 
 def main():
